@@ -208,10 +208,51 @@ impl Sink<u32> for ScriptedSink {
     }
 }
 
+/// both halves on one scripted object: every call of either half takes the next script step
+pub struct ScriptedDuplex(pub Scripted);
+impl Stream for ScriptedDuplex {
+    type Item = u32;
+    fn poll_next(mut self: Pin<&mut Self>, _cx: &mut Context<'_>) -> Poll<Option<u32>> {
+        match self.0.step() {
+            PollEnd::Pending => Poll::Pending,
+            PollEnd::Alt => Poll::Ready(Some(1)),
+            PollEnd::Ready => Poll::Ready(None),
+        }
+    }
+}
+impl ScriptedDuplex {
+    fn res(&mut self) -> Poll<Result<(), u8>> {
+        match self.0.step() {
+            PollEnd::Pending => Poll::Pending,
+            PollEnd::Alt => Poll::Ready(Err(1)),
+            PollEnd::Ready => Poll::Ready(Ok(())),
+        }
+    }
+}
+impl Sink<u32> for ScriptedDuplex {
+    type Error = u8;
+    fn poll_ready(mut self: Pin<&mut Self>, _cx: &mut Context<'_>) -> Poll<Result<(), u8>> {
+        self.res()
+    }
+    fn start_send(mut self: Pin<&mut Self>, _item: u32) -> Result<(), u8> {
+        match self.res() {
+            Poll::Ready(r) => r,
+            Poll::Pending => Ok(()),
+        }
+    }
+    fn poll_flush(mut self: Pin<&mut Self>, _cx: &mut Context<'_>) -> Poll<Result<(), u8>> {
+        self.res()
+    }
+    fn poll_close(mut self: Pin<&mut Self>, _cx: &mut Context<'_>) -> Poll<Result<(), u8>> {
+        self.res()
+    }
+}
+
 pub enum AdapterObj {
     Fut(Pin<Box<dyn Future<Output = u32> + Send>>),
     Stream(Pin<Box<fastrace_futures::InSpan<ScriptedStream>>>),
     Sink(Pin<Box<fastrace_futures::InSpan<ScriptedSink>>>),
+    Duplex(Pin<Box<fastrace_futures::InSpan<ScriptedDuplex>>>),
 }
 
 impl VtCtx {
@@ -229,6 +270,7 @@ impl VtCtx {
             vt,
             open_t: t,
             close_t: None,
+            skipped_open: 0,
             sampled_any,
             count: 0,
             open: vec![],
@@ -367,6 +409,14 @@ pub fn wrap(cx: &mut VtCtx, kind: AdapterKind, span_sel: u16, s: StrSeed, script
             use fastrace_futures::SinkExt as _;
             AdapterObj::Sink(Box::pin(ScriptedSink(mk(true, None)).in_span(span.take().unwrap())))
         }
+        AdapterKind::DuplexViaStream => AdapterObj::Duplex(Box::pin(<ScriptedDuplex as fastrace_futures::StreamExt>::in_span(
+            ScriptedDuplex(mk(true, None)),
+            span.take().unwrap(),
+        ))),
+        AdapterKind::DuplexViaSink => AdapterObj::Duplex(Box::pin(<ScriptedDuplex as fastrace_futures::SinkExt<u32>>::in_span(
+            ScriptedDuplex(mk(true, None)),
+            span.take().unwrap(),
+        ))),
     };
     let mut w = cx.case.w();
     w.adapters.push(Slot::Live(obj));
@@ -413,6 +463,10 @@ pub fn drive(cx: &mut VtCtx, a_sel: u16, entry: Entry, nested: bool) {
         AdapterKind::Stream => Entry::PollNext,
         AdapterKind::Sink => match entry {
             Entry::Poll | Entry::PollNext => Entry::PollReady,
+            e => e,
+        },
+        AdapterKind::DuplexViaStream | AdapterKind::DuplexViaSink => match entry {
+            Entry::Poll => Entry::PollNext,
             e => e,
         },
         _ => Entry::Poll,
@@ -480,6 +534,20 @@ pub fn drive(cx: &mut VtCtx, a_sel: u16, entry: Entry, nested: bool) {
                 false
             }
             (AdapterObj::Sink(s), _) => s.as_mut().poll_close(&mut c).is_ready(),
+            (AdapterObj::Duplex(s), Entry::PollNext) => matches!(s.as_mut().poll_next(&mut c), Poll::Ready(None)),
+            (AdapterObj::Duplex(s), Entry::PollReady) => {
+                let _ = s.as_mut().poll_ready(&mut c);
+                false
+            }
+            (AdapterObj::Duplex(s), Entry::StartSend) => {
+                let _ = s.as_mut().start_send(3);
+                false
+            }
+            (AdapterObj::Duplex(s), Entry::PollFlush) => {
+                let _ = s.as_mut().poll_flush(&mut c);
+                false
+            }
+            (AdapterObj::Duplex(s), _) => s.as_mut().poll_close(&mut c).is_ready(),
         }
     }));
     let b1 = cx_now(cx);
